@@ -57,7 +57,7 @@ def showPipe : Option Pipe → String
 
 def obs (s : St) : String :=
   "res=" ++ toString s.res.isSome ++ " fitcols=" ++ toString s.fitCols.isSome ++ " cols=" ++ showPipe s.cols ++
-  " nfits=" ++ toString s.nfits ++ " nrates=" ++ toString s.nrates ++ " fp={" ++
+  " scan=" ++ toString s.scan.isSome ++ " nfits=" ++ toString s.nfits ++ " nrates=" ++ toString s.nrates ++ " fp={" ++
   ", ".intercalate (Nanite.Gen.FitKeys.fpDefaultKeys.filterMap (fun k => (s.fp k).map (fun v => k ++ "=" ++ showV v))) ++ "}"
 
 partial def loop (h : IO.FS.Stream) (d : Settings) (s : St) : IO Unit := do
@@ -87,6 +87,7 @@ partial def loop (h : IO.FS.Stream) (d : Settings) (s : St) : IO Unit := do
           | _ => []
         fin (step d s (.fit (kws j) (optErrs j) g))
     | some "set" => fin (step d s (.set (gs j "key") (toV (j.getObjValD "value"))))
+    | some "emod" => fin (step d s .emod)
     | some "rate" =>
         let r := rate s (gs j "r") (gs j "t") (gs j "n") (gs j "l")
         IO.println ("ok cached=" ++ toString r.2 ++ " " ++ obs r.1)
